@@ -77,7 +77,7 @@ func (pConn *PFCPConn) handleSessionEstablishmentRequest(msg message.Message) (m
 		return seres, errProcess(err)
 	}
 
-	if strings.Compare(nodeID, pConn.nodeID.remote) != 0 {
+	if pConn.nodeID.remote == "" || strings.Compare(nodeID, pConn.nodeID.remote) != 0 {
 		logger.PfcpLog.Warnln("association not found for Establishment request",
 			"with nodeID:", nodeID, ", association NodeID:", pConn.nodeID.remote)
 		return errProcessReply(ErrAssocNotFound, ie.CauseNoEstablishedPFCPAssociation)
